@@ -15,7 +15,7 @@ src/reuse/_util.py) on an abstract file system with the network as an oracle.
 -/
 import ReuseVerif.Py.Str
 
-namespace Model
+namespace Model.Download
 open Py
 
 abbrev Path := List Text
@@ -182,4 +182,4 @@ def download (fetch : Text → Option Text) (e : Env) (missing : List Text) (a :
 def Fs.keys (fs : Fs) : List Path :=
   fs.foldr (fun kv acc => if acc.contains kv.1 then acc else kv.1 :: acc) []
 
-end Model
+end Model.Download
